@@ -770,11 +770,12 @@ def _r18a(rep, repo, meta):
                 vals = [n.value]
             elif isinstance(n, ast.Call) and call_name(n) == 'dict':
                 vals = [k.value for k in n.keywords]
-            elif isinstance(n, ast.Call) and isinstance(n.func, ast.Attribute) and n.func.attr in ('append', 'insert', 'add'):
-                vals = list(n.args[-1:])
-            elif isinstance(n, (ast.ListComp, ast.SetComp, ast.GeneratorExp)):
+            elif isinstance(n, ast.Call) and isinstance(n.func, ast.Attribute) and n.func.attr in ('append', 'insert', 'add') and \
+                    isinstance(n.func.value, ast.Name) and n.func.value.id in _returned_names(fi):
+                vals = list(n.args[-1:])      # an element of the list the function returns
+            elif isinstance(n, (ast.ListComp, ast.SetComp, ast.GeneratorExp)) and _is_returned(fi, n):
                 vals = [n.elt]
-            elif isinstance(n, ast.DictComp):
+            elif isinstance(n, ast.DictComp) and _is_returned(fi, n):
                 vals = [n.value]
             for v in vals:
                 n_vals += 1
@@ -784,6 +785,45 @@ def _r18a(rep, repo, meta):
     rep.ok('R18.a', '%s::context values' % META, '%d values stored in peripheral contexts (%d functions); none is an application/route/'
            'middleware/request object' % (n_vals, len(ctx)), meta)
     rep.floor('R18.a', 5)
+
+
+def _returned_names(fi):
+    """Locals mentioned in a return value of the function."""
+    c = getattr(fi, '_c18_returned', None)
+    if c is None:
+        c = fi._c18_returned = set(x.id for r in returns_of(fi) if r.value is not None for x in ast.walk(r.value) if isinstance(x, ast.Name))
+    return c
+
+
+def _is_returned(fi, node):
+    """The container built by ``node`` is (part of) what the function returns: directly, inside a display, through a
+    list()/sorted()/... copy, or through a local that is returned."""
+    mod = fi.mod
+    cur = node
+    while True:
+        par = mod.parents.get(cur)
+        if isinstance(par, (ast.Dict, ast.List, ast.Tuple, ast.Set, ast.Starred, ast.IfExp, ast.BoolOp)):
+            cur = par
+        elif isinstance(par, ast.Call) and isinstance(par.func, ast.Name) and par.func.id in ('list', 'tuple', 'sorted', 'dict', 'set', 'reversed') \
+                and any(cur is a for a in par.args):
+            cur = par
+        elif isinstance(par, ast.keyword) and isinstance(mod.parents.get(par), ast.Call) and call_name(mod.parents.get(par)) == 'dict':
+            cur = mod.parents.get(par)
+        elif isinstance(par, ast.Return):
+            return True
+        elif isinstance(par, (ast.Assign, ast.AugAssign, ast.AnnAssign)):
+            names = set()
+            for t in (par.targets if isinstance(par, ast.Assign) else [par.target]):
+                while isinstance(t, (ast.Subscript, ast.Attribute)):
+                    t = t.value
+                if isinstance(t, ast.Name):
+                    names.add(t.id)
+            return bool(names & _returned_names(fi))
+        elif isinstance(par, ast.Call) and isinstance(par.func, ast.Attribute) and par.func.attr in ('append', 'extend', 'insert', 'add', 'update') and \
+                isinstance(par.func.value, ast.Name) and any(cur is a for a in par.args):
+            return par.func.value.id in _returned_names(fi)
+        else:
+            return False
 
 
 def _context_functions(repo, meta):
@@ -1016,6 +1056,20 @@ def _r18c(rep, repo, meta):
 
 
 # ------------------------------------------------------------------------------------------ R18.d
+def _with_locals(fi, expr, depth=0):
+    """``expr`` and, for every single-assignment local it mentions, the expression that local names (transitively)."""
+    out = [expr]
+    if depth > 3:
+        return out
+    for x in ast.walk(expr):
+        if isinstance(x, ast.Name) and isinstance(x.ctx, ast.Load):
+            srcs = [s.value for s in stmts_of(fi.node) if isinstance(s, ast.Assign) and len(s.targets) == 1 and
+                    isinstance(s.targets[0], ast.Name) and s.targets[0].id == x.id]
+            if len(srcs) == 1:
+                out.extend(_with_locals(fi, srcs[0], depth + 1))
+    return out
+
+
 def _r18d(rep, repo, meta):
     pkg_dir = os.path.join(repo.root, 'clastic')
     files = sorted(f for f in os.listdir(pkg_dir) if f.startswith('meta_') and f.endswith('.html'))
@@ -1032,10 +1086,14 @@ def _r18d(rep, repo, meta):
     init = amp.methods.get('__init__')
     if rend is None or init is None:
         raise AnalysisError('AshesMetaPeripheral: __init__ / render_main_page_html not found')
-    ok = all(isinstance(r.value, ast.Call) and norm(r.value.func) == 'self.loaded_template.render' for r in returns_of(rend)) and returns_of(rend)
+    ok = all(isinstance(r.value, ast.Call) and isinstance(r.value.func, ast.Attribute) and r.value.func.attr == 'render' and
+             any(norm(x) == 'self.loaded_template' for x in _with_locals(rend, r.value.func.value)) for r in returns_of(rend)) and returns_of(rend)
     rep.check('R18.d', fkey(rend), bool(ok), 'section HTML is an ashes render of the peripheral\'s own template' if ok else
               'AshesMetaPeripheral.render_main_page_html does not return self.loaded_template.render(...)', meta, rend.node)
-    ok = any(isinstance(s, ast.Assign) and norm(s.targets[0]) == 'self.loaded_template' and 'self.template_path' in norm(s.value) for s in stmts_of(init.node))
+    loads = [s for s in stmts_of(init.node) if isinstance(s, ast.Assign) and any(norm(t) == 'self.loaded_template' for t in s.targets)]
+    if not loads:
+        raise AnalysisError('AshesMetaPeripheral.__init__: assignment of self.loaded_template not found')
+    ok = all(any('self.template_path' in norm(x) for x in _with_locals(init, s.value)) for s in loads)
     rep.check('R18.d', fkey(init), ok, 'loaded_template is loaded from self.template_path' if ok else 'loaded_template does not come from template_path', meta, init.node)
     for cname, tp in sorted(sect.items()):
         rep.check('R18.d', '%s::%s.template_path' % (META, cname), tp in files, '%s renders %s' % (cname, tp) if tp in files else
@@ -1062,8 +1120,12 @@ def _r18d(rep, repo, meta):
     mi = meta.func('MetaApplication.__init__')
 
     def names_base(e):
-        return any(repo.try_fold(a, meta) == 'meta_base.html' for c in ast.walk(e) if isinstance(c, ast.Call) for a in c.args)
-    ok = any(isinstance(s, ast.Assign) and norm(s.targets[0]) == 'self._main_page_render' and names_base(s.value) for s in stmts_of(mi.node))
+        return any(repo.try_fold(y, meta) == 'meta_base.html' for x in _with_locals(mi, e) for y in ast.walk(x)
+                   if isinstance(y, (ast.Constant, ast.Name, ast.Attribute)))
+    renders = [s for s in stmts_of(mi.node) if isinstance(s, ast.Assign) and any(norm(t) == 'self._main_page_render' for t in s.targets)]
+    if not renders:
+        raise AnalysisError('MetaApplication.__init__: assignment of self._main_page_render not found')
+    ok = all(names_base(s.value) for s in renders)
     rep.check('R18.d', fkey(mi, 'main template'), ok, 'the main page is rendered from meta_base.html' if ok else 'the main page template changed', meta, mi.node)
     rep.floor('R18.d', 40)
 
